@@ -31,7 +31,13 @@ use domain::base::message_builder::TreeCompressor;
 use domain::base::name::{Label, Name};
 use domain::base::rdata::{ComposeRecordData, RecordData};
 use domain::base::{Message, MessageBuilder, Rtype, Serial, Ttl};
+use domain::net::server::message::{NonUdpTransportContext, Request, TransportSpecificContext, UdpTransportContext};
+use domain::net::server::middleware::xfr::{XfrData, XfrDataProvider, XfrDataProviderError, XfrMiddlewareSvc};
+use domain::net::server::service::{Service, ServiceError, ServiceResult};
 use domain::net::xfr::protocol::XfrResponseInterpreter;
+use futures_util::StreamExt;
+use std::future::Future;
+use std::pin::Pin;
 use domain::rdata::{Soa, Txt, ZoneRecordData, A};
 use domain::zonetree::types::ZoneUpdate;
 use domain::zonetree::update::ZoneUpdater;
@@ -41,7 +47,6 @@ use rayon::prelude::*;
 use serde_json::{json, Value};
 use std::collections::{BTreeMap, BTreeSet};
 use std::str::FromStr;
-use std::sync::atomic::{AtomicU64, Ordering as AO};
 use std::sync::{Arc, Mutex};
 
 type SName = Name<Bytes>;
@@ -448,7 +453,7 @@ async fn run_pipeline(zone: &Zone, msgs: &[Bytes], rec: &mut RealRec) -> Outcome
 }
 
 thread_local! {
-    static RT: tokio::runtime::Runtime = tokio::runtime::Builder::new_current_thread().build().unwrap();
+    static RT: tokio::runtime::Runtime = tokio::runtime::Builder::new_current_thread().enable_time().build().unwrap();
 }
 
 struct RealOut {
@@ -491,6 +496,10 @@ enum V {
     Either,
     /// IXFR answered by a single SOA: no transfer; zone must stay as it is
     UpToDate,
+    /// IXFR answer starting SOA(x) SOA(x): RFC 1995 does not let a client
+    /// tell an AXFR-style answer for a SOA-only zone from a difference list;
+    /// only "no panic" and reader stability are demanded
+    Open,
 }
 
 struct RefOut {
@@ -554,6 +563,7 @@ fn reference(msgs: &[Bytes], old: &Obs) -> RefOut {
     let mut trailing = false;
     let mut final_zone: Option<Obs> = None;
     let mut rr_total = 0usize;
+    let mut closing_mismatch = false;
     let mut xfr = "unknown";
     macro_rules! invalid {
         ($r:expr) => {
@@ -636,6 +646,9 @@ fn reference(msgs: &[Bytes], old: &Obs) -> RefOut {
                 }
                 St::IxfrSecond => {
                     if is_soa {
+                        if Some(&c) == soa0.as_ref() {
+                            return RefOut { verdict: V::Open, reason: "ixfr-soa-soa", xfr, final_zone: None, completed, tainted };
+                        }
                         if Some(&c) != old_soa.as_ref() {
                             tainted = true; // difference sequence for another base version
                         }
@@ -674,15 +687,20 @@ fn reference(msgs: &[Bytes], old: &Obs) -> RefOut {
                         let version = with_soa(&work, &sn);
                         completed.push(version.clone());
                         if Some(&c) == soa0.as_ref() {
-                            if Some(&sn) == soa0.as_ref() {
-                                final_zone = Some(version);
-                                ended = true;
-                            } else {
-                                invalid!("ixfr-closing-soa-is-not-last-diff-soa");
+                            // closing SOA.  RFC 1995 4: the list of difference sequences is
+                            // followed by a copy of the server's current SOA, and the newer
+                            // SOA of the last sequence is that version.  If it is not, the
+                            // lenient reading (BIND) ends the transfer at the last completed
+                            // version, the strict one rejects; both are accepted, anything
+                            // else is not a version of the sender.
+                            if Some(&sn) != soa0.as_ref() {
+                                closing_mismatch = true;
                             }
+                            final_zone = Some(version);
+                            ended = true;
                         } else {
                             if c != sn {
-                                invalid!("ixfr-chain-break");
+                                tainted = true; // older SOA of this sequence is not the newer SOA of the previous one
                             }
                             st = St::IxfrDel;
                         }
@@ -699,20 +717,83 @@ fn reference(msgs: &[Bytes], old: &Obs) -> RefOut {
         }
         invalid!("incomplete");
     }
-    let verdict = if trailing || tainted { V::Either } else { V::Valid };
-    RefOut { verdict, reason: if trailing { "trailing-data" } else if tainted { "tainted" } else { "ok" }, xfr, final_zone, completed, tainted }
+    if closing_mismatch && tainted {
+        // a stream that is garbled in more than one way: nothing but "no panic" is demanded
+        return RefOut { verdict: V::Open, reason: "garbled", xfr, final_zone: None, completed, tainted };
+    }
+    let verdict = if trailing || tainted || closing_mismatch { V::Either } else { V::Valid };
+    let reason = if closing_mismatch {
+        "ixfr-closing-soa-is-not-last-diff-soa"
+    } else if trailing {
+        "trailing-data"
+    } else if tainted {
+        "tainted"
+    } else {
+        "ok"
+    };
+    RefOut { verdict, reason, xfr, final_zone, completed, tainted }
 }
 
 // ====================================================================
 // Judging one receiver case
 // ====================================================================
 
+#[derive(Default)]
+struct Local {
+    counters: BTreeMap<String, u64>,
+    states: std::collections::HashSet<u64>,
+    transitions: u64,
+    runs: u64,
+    sampled: std::collections::HashSet<String>,
+}
+
+thread_local! {
+    static LOCAL: std::cell::RefCell<Local> = std::cell::RefCell::new(Local::default());
+}
+
+fn lcount(k: &str) {
+    LOCAL.with(|l| {
+        let mut l = l.borrow_mut();
+        if let Some(v) = l.counters.get_mut(k) {
+            *v += 1;
+        } else {
+            l.counters.insert(k.to_string(), 1);
+        }
+    });
+}
+
 struct Shared {
     ctx: Arc<Ctx>,
     stats: Stats,
-    states: Mutex<std::collections::HashSet<u64>>,
-    transitions: AtomicU64,
-    runs: AtomicU64,
+    seen: Mutex<std::collections::HashSet<String>>,
+    sample_keys: Mutex<BTreeMap<String, u32>>,
+    samples: Mutex<Vec<Value>>,
+}
+
+/// Report a violation; the (costly) description and replay case are only
+/// built for the first instance of a signature.
+fn report(sh: &Shared, sig: &str, what: &dyn Fn() -> String, case: &dyn Fn() -> Value) {
+    let first = sh.seen.lock().unwrap().insert(sig.to_string());
+    if first {
+        sh.ctx.violation(sig, &what(), case());
+    } else {
+        sh.ctx.violation(sig, "", Value::Null);
+    }
+}
+
+/// Keep one sample per key, at most 48 keys.
+fn sample(sh: &Shared, key: &str, v: &dyn Fn() -> Value) {
+    let fresh = LOCAL.with(|l| l.borrow_mut().sampled.insert(key.to_string()));
+    if !fresh {
+        return;
+    }
+    let mut g = sh.sample_keys.lock().unwrap();
+    if g.len() >= 48 || g.contains_key(key) {
+        return;
+    }
+    g.insert(key.to_string(), 1);
+    drop(g);
+    sh.samples.lock().unwrap().push(v());
 }
 
 fn obs_hash(o: &Obs) -> u64 {
@@ -771,7 +852,8 @@ struct Case<'a> {
 
 fn case_json(c: &Case) -> Value {
     json!({
-        "part": c.part,
+        // (a stream emitted by the real sender is replayed from its octets like any other stream)
+        "part": if c.part == "S" { "F" } else { c.part },
         "label": c.label,
         "old": c.old_kinds,
         "old_serial": c.old_serial,
@@ -780,20 +862,29 @@ fn case_json(c: &Case) -> Value {
     })
 }
 
+fn outcome_name(o: &Result<Outcome, String>) -> String {
+    match o {
+        Ok(Outcome::Finished) => "finished".to_string(),
+        Ok(Outcome::Err { class, .. }) => format!("err({class})"),
+        Ok(Outcome::Incomplete) => "incomplete".to_string(),
+        Err(_) => "panic".to_string(),
+    }
+}
+
 fn judge(sh: &Shared, c: &Case, verbose: bool) {
     let old_obs = model_obs(c.old_serial, c.old);
     let refo = reference(&c.msgs, &old_obs);
     let real = run_real(c.old_serial, c.old, &c.msgs);
     sh.stats.eval();
-    sh.runs.fetch_add(1, AO::Relaxed);
-    sh.transitions.fetch_add(real.rec.consumed as u64 + 1, AO::Relaxed);
-    {
-        let mut g = sh.states.lock().unwrap();
-        g.insert(obs_hash(&real.final_obs));
+    LOCAL.with(|l| {
+        let mut l = l.borrow_mut();
+        l.runs += 1;
+        l.transitions += real.rec.consumed as u64 + 1;
+        l.states.insert(obs_hash(&real.final_obs));
         for s in &real.rec.snaps {
-            g.insert(obs_hash(s));
+            l.states.insert(obs_hash(s));
         }
-    }
+    });
     let mut key = vec![];
     key.extend_from_slice(&c.old_kinds);
     for m in &c.msgs {
@@ -805,24 +896,38 @@ fn judge(sh: &Shared, c: &Case, verbose: bool) {
     }
     let kind = c.label.split('/').next().unwrap_or("").to_string();
     let fault_kind = c.fault.as_ref().map(|f| f.split('@').next().unwrap().to_string());
-    sh.stats.count(&format!(
+    lcount(&format!(
         "{}:{}:ref={:?}({}):real={}",
         c.part,
         if c.fault.is_some() { "fault" } else { "honest" },
         refo.verdict,
         refo.reason,
-        match &real.outcome {
-            Ok(Outcome::Finished) => "finished".to_string(),
-            Ok(Outcome::Err { class, .. }) => format!("err({class})"),
-            Ok(Outcome::Incomplete) => "incomplete".to_string(),
-            Err(_) => "panic".to_string(),
-        }
+        outcome_name(&real.outcome)
     ));
     if let Some(fk) = &fault_kind {
-        sh.stats.count(&format!("fault:{fk}:ref={:?}", refo.verdict));
+        lcount(&format!("fault:{fk}:ref={:?}", refo.verdict));
     }
     if verbose {
         println!("case: {} fault={:?}", c.label, c.fault);
+        for m in &c.msgs {
+            match wire::read_message(m) {
+                Ok(r) => println!(
+                    "  message: flags={:#06x} counts={:?} q={:?} answer={:?}",
+                    r.flags,
+                    r.counts,
+                    r.questions.iter().map(|q| q.qtype).collect::<Vec<_>>(),
+                    r.sections[0]
+                        .iter()
+                        .map(|rr| match crec_from_raw(m, rr) {
+                            Ok(c) if c.rtype == 6 => format!("{} SOA serial={}", c.owner, u32::from_be_bytes([c.rdata[11], c.rdata[12], c.rdata[13], c.rdata[14]])),
+                            Ok(c) => format!("{} type{} {}", c.owner, c.rtype, hex(&c.rdata)),
+                            Err(e) => e,
+                        })
+                        .collect::<Vec<_>>()
+                ),
+                Err(e) => println!("  message: unparseable ({e})"),
+            }
+        }
         println!("  reference: {:?} reason={} xfr={} tainted={}", refo.verdict, refo.reason, refo.xfr, refo.tainted);
         println!("  reference final: {}", refo.final_zone.as_ref().map(obs_json).unwrap_or(Value::Null));
         println!("  real outcome: {:?} updates={:?}", real.outcome, real.rec.updates);
@@ -832,7 +937,7 @@ fn judge(sh: &Shared, c: &Case, verbose: bool) {
         }
         for (b, d, a) in &real.rec.diffs {
             println!("  diff {}->{}: removed {} added {}", d.start, d.end, obs_json(&d.removed), obs_json(&d.added));
-            println!("     before {} after {} verdict {:?}", obs_json(b), obs_json(a), diff_mismatch(b, d, a));
+            println!("     before {} after {} mismatch {:?}", obs_json(b), obs_json(a), diff_mismatch(b, d, a));
         }
     }
     let cj = || {
@@ -844,17 +949,36 @@ fn judge(sh: &Shared, c: &Case, verbose: bool) {
     // --- the honest stream must be what the reference reads out of it (self-check of model + reference)
     if let Some(new) = &c.honest_new {
         if refo.verdict != V::Valid || refo.final_zone.as_ref() != Some(new) {
-            sh.ctx.violation(
+            if c.part == "S" {
+                report(
+                    sh,
+                    &format!("C10|sender|{}|emitted-stream-is-not-a-valid-transfer-of-the-zone|{:?}({})", kind, refo.verdict, refo.reason),
+                    &|| {
+                        format!(
+                            "the response stream emitted by XfrMiddlewareSvc ({}) is read by the reference as {:?}/{} yielding {} but the sender holds {}",
+                            c.label,
+                            refo.verdict,
+                            refo.reason,
+                            refo.final_zone.as_ref().map(obs_json).unwrap_or(Value::Null),
+                            obs_json(new)
+                        )
+                    },
+                    &cj,
+                );
+                return;
+            }
+            report(
+                sh,
                 "C10|MACHINERY|reference-disagrees-with-stream-builder",
-                &format!("harness self-check: reference reads {:?}/{} out of an honest {} stream", refo.verdict, refo.reason, kind),
-                cj(),
+                &|| format!("harness self-check: reference reads {:?}/{} out of an honest {} stream", refo.verdict, refo.reason, kind),
+                &cj,
             );
             return;
         }
         // every version the reference saw completed is a version of the sender's history
         for v in &refo.completed {
             if !c.honest_versions.contains(v) {
-                sh.ctx.violation("C10|MACHINERY|reference-completed-unknown-version", "harness self-check", cj());
+                report(sh, "C10|MACHINERY|reference-completed-unknown-version", &|| "harness self-check".into(), &cj);
                 return;
             }
         }
@@ -862,16 +986,18 @@ fn judge(sh: &Shared, c: &Case, verbose: bool) {
     // --- no panic
     let outcome = match &real.outcome {
         Err(p) => {
-            sh.ctx.violation(
+            report(
+                sh,
                 &format!("C10|panic|{}|{}", refo.xfr, panic_class(p)),
-                &format!("receiver pipeline panicked ({p}) on a {} stream{}", kind, c.fault.as_ref().map(|f| format!(" with fault {f}")).unwrap_or_default()),
-                cj(),
+                &|| format!("receiver pipeline panicked ({p}) on a {} stream{}", kind, c.fault.as_ref().map(|f| format!(" with fault {f}")).unwrap_or_default()),
+                &cj,
             );
             None
         }
         Ok(o) => Some(o.clone()),
     };
     let who = if c.fault.is_some() { "faulted" } else { "honest" };
+    let open = refo.verdict == V::Open;
     let mut final_reported = false;
     // --- verdict vs outcome, content
     if let Some(o) = &outcome {
@@ -893,118 +1019,141 @@ fn judge(sh: &Shared, c: &Case, verbose: bool) {
                             if !soa_only && w.difference(&g).next().is_some() { "+missing-records" } else { "" }
                         )
                     };
-                    sh.ctx.violation(
-                        &format!("C10|receiver|{}|{}|accepted|content!=transferred-zone|{}", refo.xfr, who, cause),
-                        &format!(
-                            "{} {} stream accepted but the receiving zone differs from the transferred zone ({cause}); got {} want {}",
-                            who,
-                            refo.xfr,
-                            obs_json(&got),
-                            obs_json(want)
-                        ),
-                        cj(),
+                    let why = if refo.reason.starts_with("ixfr-closing") { format!("|{}", refo.reason) } else { String::new() };
+                    report(
+                        sh,
+                        &format!("C10|receiver|{}|accepted|content!=transferred-zone|{}{}", refo.xfr, cause, why),
+                        &|| {
+                            format!(
+                                "{} {} stream ({}) accepted but the receiving zone differs from the transferred zone ({cause}); fault {:?}; got {} want {}",
+                                who,
+                                refo.xfr,
+                                refo.reason,
+                                c.fault,
+                                obs_json(&got),
+                                obs_json(want)
+                            )
+                        },
+                        &cj,
                     );
                 }
             }
             (V::Valid, Outcome::Err { class, at }) => {
                 let first_single = refo.xfr.starts_with("ixfr") && wire::read_message(&c.msgs[0]).map(|m| m.counts[1] == 1).unwrap_or(false) && *at == 0;
-                sh.ctx.violation(
+                report(
+                    sh,
                     &format!("C10|receiver|{}|valid-transfer-rejected|{}{}", refo.xfr, class, if first_single { "|first-message-holds-only-the-soa" } else { "" }),
-                    &format!("a valid {} transfer ({}) is rejected at message {at} with {class}", refo.xfr, who),
-                    cj(),
+                    &|| format!("a valid {} transfer ({}; fault {:?}) is rejected at message {at} with {class}", refo.xfr, who, c.fault),
+                    &cj,
                 );
             }
             (V::Valid, Outcome::Incomplete) => {
-                sh.ctx.violation(
+                report(
+                    sh,
                     &format!("C10|receiver|{}|valid-transfer-not-finished", refo.xfr),
-                    &format!("a valid {} transfer ({}) is consumed completely but the interpreter does not report it finished", refo.xfr, who),
-                    cj(),
+                    &|| format!("a valid {} transfer ({}) is consumed completely but the interpreter does not report it finished", refo.xfr, who),
+                    &cj,
                 );
             }
             (V::Invalid, Outcome::Finished) => {
-                sh.ctx.violation(
+                report(
+                    sh,
                     &format!("C10|reject|{}|invalid({})|accepted", refo.xfr, refo.reason),
-                    &format!(
-                        "a stream that is not a valid {} transfer ({}) is accepted: Ok and committed; fault {:?}; receiver now holds {}",
-                        refo.xfr,
-                        refo.reason,
-                        c.fault,
-                        obs_json(&real.final_obs)
-                    ),
-                    cj(),
+                    &|| {
+                        format!(
+                            "a stream that is not a valid {} transfer ({}) is accepted: Ok and committed; fault {:?}; receiver now holds {}",
+                            refo.xfr,
+                            refo.reason,
+                            c.fault,
+                            obs_json(&real.final_obs)
+                        )
+                    },
+                    &cj,
                 );
             }
-            (V::UpToDate, Outcome::Finished) | (V::UpToDate, Outcome::Err { .. }) | (V::UpToDate, Outcome::Incomplete) => {}
+            (V::UpToDate, _) | (V::Open, _) => {}
             (V::Invalid, _) | (V::Either, _) => {}
         }
     }
     // --- visibility: every reader sees `old` or a version the reference saw completed
-    let mut allowed: Vec<Obs> = vec![old_obs.clone()];
-    allowed.extend(refo.completed.iter().cloned());
-    let ok_version = |o: &Obs| allowed.contains(o) || (refo.tainted && allowed.contains(&dedup(o)));
-    let mut seen: Vec<(&Obs, String)> = real.rec.snaps.iter().enumerate().map(|(i, s)| (s, format!("reader-after-message-{i}"))).collect();
-    seen.push((&real.final_obs, "reader-after-end".into()));
-    for (o, wher) in seen {
-        if ok_version(o) {
-            continue;
+    if !open {
+        let mut allowed: Vec<Obs> = vec![old_obs.clone()];
+        allowed.extend(refo.completed.iter().cloned());
+        let ok_version = |o: &Obs| allowed.contains(o) || (refo.tainted && allowed.contains(&dedup(o)));
+        let mut seen: Vec<(&Obs, String)> = real.rec.snaps.iter().enumerate().map(|(i, s)| (s, format!("reader-after-message-{i}"))).collect();
+        seen.push((&real.final_obs, "reader-after-end".into()));
+        for (o, wher) in seen {
+            if ok_version(o) {
+                continue;
+            }
+            if final_reported && *o == real.final_obs {
+                continue;
+            }
+            let cause = if allowed.contains(&dedup(o)) {
+                "duplicate-rr-kept"
+            } else if allowed.iter().any(|a| a.iter().filter(|c| c.rtype != 6).eq(o.iter().filter(|c| c.rtype != 6))) {
+                "content-of-one-version-with-soa-of-another"
+            } else {
+                "content-of-no-version"
+            };
+            report(
+                sh,
+                &format!("C10|visible|{}|ref={:?}({})|{}", refo.xfr, refo.verdict, refo.reason, cause),
+                &|| {
+                    format!(
+                        "a reader ({wher}) sees a zone that is neither `old` nor a version the transfer completed ({cause}): {}; fault {:?}; outcome {:?}",
+                        obs_json(o),
+                        c.fault,
+                        outcome
+                    )
+                },
+                &cj,
+            );
+            break;
         }
-        if final_reported && *o == real.final_obs {
-            continue;
-        }
-        let cause = if allowed.contains(&dedup(o)) {
-            "duplicate-rr-kept"
-        } else if allowed.iter().any(|a| a.iter().filter(|c| c.rtype != 6).eq(o.iter().filter(|c| c.rtype != 6))) {
-            "content-of-one-version-with-soa-of-another"
-        } else {
-            "content-of-no-version"
-        };
-        sh.ctx.violation(
-            &format!("C10|visible|{}|ref={:?}({})|{}", refo.xfr, refo.verdict, refo.reason, cause),
-            &format!(
-                "a reader ({wher}) sees a zone that is neither `old` nor a version the transfer completed ({cause}): {}; outcome {:?}",
-                obs_json(o),
-                outcome
-            ),
-            cj(),
-        );
-        break;
     }
     if real.pinned_before != old_obs {
-        sh.ctx.violation(
+        report(
+            sh,
             &format!("C10|visible|{}|reader-opened-before-transfer-changed", refo.xfr),
-            &format!("a reader opened before the transfer no longer sees `old`: {}", obs_json(&real.pinned_before)),
-            cj(),
+            &|| format!("a reader opened before the transfer no longer sees `old`: {}", obs_json(&real.pinned_before)),
+            &cj,
         );
     }
     if let Some(i) = real.reader_unstable {
-        sh.ctx.violation(
+        report(
+            sh,
             &format!("C10|visible|{}|reader-opened-during-transfer-changed", refo.xfr),
-            &format!("the reader opened after message {i} sees different content at the end of the transfer"),
-            cj(),
+            &|| format!("the reader opened after message {i} sees different content at the end of the transfer"),
+            &cj,
         );
     }
     // --- diffs returned by apply()
     for (b, d, a) in &real.rec.diffs {
-        sh.stats.count("diffs-returned-by-updater");
+        lcount("diffs-returned-by-updater");
         if let Some(k) = diff_mismatch(b, d, a) {
-            let via = if real.rec.updates.contains(&"DeleteAll") { "axfr(remove_all)" } else { "ixfr" };
-            sh.ctx.violation(
-                &format!("C10|diff|via-updater-{via}|{k}"),
-                &format!(
-                    "the diff returned by ZoneUpdater::apply (serial {}->{}) applied to the content before the commit does not give the content after it ({k}): removed {} added {}; before {} after {}",
-                    d.start,
-                    d.end,
-                    obs_json(&d.removed),
-                    obs_json(&d.added),
-                    obs_json(b),
-                    obs_json(a)
-                ),
-                cj(),
+            let via = if real.rec.updates.contains(&"DeleteAll") { "axfr" } else { "ixfr" };
+            lcount(&format!("diffs-returned-by-updater:wrong:{via}:{k}"));
+            report(
+                sh,
+                &format!("C10|diff|via-updater|{via}"),
+                &|| {
+                    format!(
+                        "the diff returned by ZoneUpdater::apply (serial {}->{}) applied to the content before the commit does not give the content after it ({k}): removed {} added {}; before {} after {}",
+                        d.start,
+                        d.end,
+                        obs_json(&d.removed),
+                        obs_json(&d.added),
+                        obs_json(b),
+                        obs_json(a)
+                    )
+                },
+                &cj,
             );
         }
     }
-    sh.stats.sample(6, || {
-        json!({"label": c.label, "fault": c.fault, "messages": c.msgs.len(), "reference": format!("{:?}/{}", refo.verdict, refo.reason), "real": format!("{:?}", real.outcome), "msgs": c.msgs.iter().map(|m| hex(m)).collect::<Vec<_>>()})
+    sample(sh, &format!("{}:{}:{}", c.part, kind, fault_kind.clone().unwrap_or_default()), &|| {
+        json!({"part": c.part, "label": c.label, "old": c.old_kinds, "fault": c.fault, "reference": format!("{:?}/{}", refo.verdict, refo.reason), "real": outcome_name(&real.outcome), "msgs": c.msgs.iter().map(|m| hex(m)).collect::<Vec<_>>()})
     });
 }
 
@@ -1021,6 +1170,7 @@ struct Bounds {
     fault_dist: usize,
     fault_cuts: u32,
     diff_len: usize,
+    sender_dist: usize,
 }
 
 fn masks_for(n: usize, all_upto: usize, max_cuts: u32) -> Vec<u32> {
@@ -1386,14 +1536,12 @@ fn model_edits(old: &BTreeSet<MRec>, ops: &[Op]) -> (BTreeSet<MRec>, bool) {
     (s, soa_removed)
 }
 
-/// Structural cause of a diff mismatch: how the ops touch one RRset.
-fn edit_pattern(ops: &[Op], old: &BTreeSet<MRec>, diff_before: &Obs, d: &DiffObs, after: &Obs) -> String {
-    // find one RRset on which diff(old) and new disagree
+/// Structural cause of a diff mismatch: how the ops touch the RRset on which
+/// diff(old) and new disagree.
+fn edit_pattern(ops: &[Op], diff_before: &Obs, d: &DiffObs, after: &Obs) -> String {
     let got = apply_diff(diff_before, d);
     let want: BTreeSet<CRec> = after.iter().cloned().collect();
-    let bad = got.symmetric_difference(&want).next().cloned();
-    let _ = old;
-    let Some(bad) = bad else { return "none".into() };
+    let Some(bad) = got.symmetric_difference(&want).next().cloned() else { return "none".into() };
     let owner = OWNERS_NODOT.iter().position(|o| *o == bad.owner).unwrap_or(0) as u8;
     let mut pat = vec![];
     for op in ops {
@@ -1404,11 +1552,14 @@ fn edit_pattern(ops: &[Op], old: &BTreeSet<MRec>, diff_before: &Obs, d: &DiffObs
             _ => {}
         }
     }
-    // collapse repeats beyond two ops to keep the class structural
     if pat.contains(&"remove_all") {
         return "remove_all".into();
     }
-    pat.join("-then-")
+    match pat.len() {
+        0 => "rrset-not-edited".into(),
+        1 => format!("single-{}", pat[0]),
+        _ => format!("rrset-edited-more-than-once-in-one-version|last-edit={}", pat[pat.len() - 1]),
+    }
 }
 
 fn run_diff_case(sh: &Shared, old_k: Kinds, ops: &[Op], mode: u8, verbose: bool) {
@@ -1417,10 +1568,13 @@ fn run_diff_case(sh: &Shared, old_k: Kinds, ops: &[Op], mode: u8, verbose: bool)
     let old_obs = model_obs(1, &old);
     let r = guard(|| RT.with(|rt| rt.block_on(run_edits(&zone, ops, mode))));
     sh.stats.eval();
-    sh.runs.fetch_add(1, AO::Relaxed);
-    sh.transitions.fetch_add(ops.len() as u64 + 1, AO::Relaxed);
     let after = observe(&zone);
-    sh.states.lock().unwrap().insert(obs_hash(&after));
+    LOCAL.with(|l| {
+        let mut l = l.borrow_mut();
+        l.runs += 1;
+        l.transitions += ops.len() as u64 + 1;
+        l.states.insert(obs_hash(&after));
+    });
     let cj = || json!({"part": "D", "old": old_k, "ops": ops.iter().map(op_json).collect::<Vec<_>>(), "mode": mode});
     let mut key = vec![0xD, mode];
     key.extend_from_slice(&old_k);
@@ -1428,7 +1582,7 @@ fn run_diff_case(sh: &Shared, old_k: Kinds, ops: &[Op], mode: u8, verbose: bool)
     if !ops.is_empty() {
         sh.stats.distinct(fnv(&key));
     }
-    let (want_recs, _soa_removed) = model_edits(&old, ops);
+    let want_recs = model_edits(&old, ops).0;
     let want = model_obs(2, &want_recs);
     if verbose {
         println!("diff case: old={old_k:?} ops={ops:?} mode={mode}");
@@ -1438,53 +1592,59 @@ fn run_diff_case(sh: &Shared, old_k: Kinds, ops: &[Op], mode: u8, verbose: bool)
     }
     match r {
         Err(p) => {
-            sh.ctx.violation(&format!("C10|panic|write-interface|{}", panic_class(&p)), &format!("write interface panicked: {p}"), cj());
+            report(sh, &format!("C10|panic|write-interface|{}", panic_class(&p)), &|| format!("write interface panicked: {p}"), &cj);
         }
         Ok(Err(e)) => {
-            sh.stats.count(&format!("D:error:{}", err_class(e.clone())));
-            sh.ctx.violation(&format!("C10|write|error|{}", err_class(e.clone())), &format!("edit sequence failed: {e}"), cj());
+            lcount(&format!("D:error:{}", err_class(e.clone())));
+            report(sh, &format!("C10|write|error|{}", err_class(e.clone())), &|| format!("edit sequence failed: {e}"), &cj);
         }
         Ok(Ok(d)) => {
             if after != want {
-                sh.ctx.violation(
+                report(
+                    sh,
                     "C10|write|content-after-commit!=model",
-                    &format!("after the edits the zone holds {} but the edits describe {}", obs_json(&after), obs_json(&want)),
-                    cj(),
+                    &|| format!("after the edits the zone holds {} but the edits describe {}", obs_json(&after), obs_json(&want)),
+                    &cj,
                 );
                 return;
             }
             match d {
                 None => {
-                    sh.stats.count("D:diff=None");
-                    sh.ctx.violation(
+                    lcount("D:diff=None");
+                    report(
+                        sh,
                         &format!("C10|diff|write-interface|no-diff-returned|{}", if ops.contains(&Op::RemAll) { "after-remove_all" } else { "other" }),
-                        "commit of a version opened with create_diff=true and a changed SOA serial returned no diff",
-                        cj(),
+                        &|| "commit of a version opened with create_diff=true and a changed SOA serial returned no diff".into(),
+                        &cj,
                     );
                 }
                 Some(d) => {
-                    sh.stats.count("D:diff=Some");
+                    lcount("D:diff=Some");
                     if verbose {
                         println!("  diff {}->{} removed {} added {}", d.start, d.end, obs_json(&d.removed), obs_json(&d.added));
                     }
                     if (d.start, d.end) != (1, 2) {
-                        sh.ctx.violation("C10|diff|write-interface|serials", &format!("diff serials {}->{} instead of 1->2", d.start, d.end), cj());
+                        report(sh, "C10|diff|write-interface|serials", &|| format!("diff serials {}->{} instead of 1->2", d.start, d.end), &cj);
                     }
                     match diff_mismatch(&old_obs, &d, &after) {
-                        None => sh.stats.count("D:diff-correct"),
+                        None => lcount("D:diff-correct"),
                         Some(k) => {
-                            sh.stats.count("D:diff-wrong");
-                            let pat = edit_pattern(ops, &old, &old_obs, &d, &after);
-                            sh.ctx.violation(
-                                &format!("C10|diff|write-interface|{pat}|{k}"),
-                                &format!(
-                                    "diff returned by commit, applied to the old content, does not give the new content ({k}) after {pat} on one RRset within one version: removed {} added {}; old {} new {}",
-                                    obs_json(&d.removed),
-                                    obs_json(&d.added),
-                                    obs_json(&old_obs),
-                                    obs_json(&after)
-                                ),
-                                cj(),
+                            let pat = edit_pattern(ops, &old_obs, &d, &after);
+                            lcount(&format!("D:diff-wrong:{pat}:{k}"));
+                            report(
+                                sh,
+                                &format!("C10|diff|write-interface|{pat}"),
+                                &|| {
+                                    format!(
+                                        "diff returned by commit, applied to the old content, does not give the new content ({k}); edits {:?}: removed {} added {}; old {} new {}",
+                                        ops,
+                                        obs_json(&d.removed),
+                                        obs_json(&d.added),
+                                        obs_json(&old_obs),
+                                        obs_json(&after)
+                                    )
+                                },
+                                &cj,
                             );
                         }
                     }
@@ -1492,18 +1652,32 @@ fn run_diff_case(sh: &Shared, old_k: Kinds, ops: &[Op], mode: u8, verbose: bool)
             }
         }
     }
-    sh.stats.sample(9, || cj());
+    sample(sh, &format!("D:len{}:mode{}", ops.len(), mode), &cj);
 }
 
 fn run_diff_part(sh: &Shared, b: &Bounds) {
     let alpha = op_alphabet();
     let a = alpha.len();
+    let mut tasks = vec![];
+    for zi in 0..64usize {
+        for first in 0..a {
+            tasks.push((zi, first));
+        }
+    }
+    // length 0 and 1
     (0..64usize).into_par_iter().for_each(|zi| {
-        let old_k = kinds_of(zi);
-        for len in 0..=b.diff_len {
-            for idx in 0..pow(a, len) {
-                let mut ops = vec![];
-                nth_string(&alpha, len, idx, &mut ops);
+        for mode in 0..2u8 {
+            run_diff_case(sh, kinds_of(zi), &[], mode, false);
+        }
+    });
+    tasks.par_iter().for_each(|(zi, first)| {
+        let old_k = kinds_of(*zi);
+        for len in 1..=b.diff_len {
+            for idx in 0..pow(a, len - 1) {
+                let mut rest = vec![];
+                nth_string(&alpha, len - 1, idx, &mut rest);
+                let mut ops = vec![alpha[*first]];
+                ops.extend(rest);
                 for mode in 0..2u8 {
                     run_diff_case(sh, old_k, &ops, mode, false);
                 }
@@ -1511,6 +1685,305 @@ fn run_diff_part(sh: &Shared, b: &Bounds) {
         }
     });
 }
+
+// ====================================================================
+// Part S: the sender side through the real XfrMiddlewareSvc
+// ====================================================================
+
+#[derive(Clone)]
+struct Provider {
+    zone: Zone,
+    diffs: Vec<Arc<InMemoryZoneDiff>>,
+    compat: bool,
+}
+
+impl<M> XfrDataProvider<M> for Provider {
+    type Diff = Arc<InMemoryZoneDiff>;
+    fn request<Octs>(
+        &self,
+        _req: &Request<Octs, M>,
+        diff_from: Option<Serial>,
+    ) -> Pin<Box<dyn Future<Output = Result<XfrData<Self::Diff>, XfrDataProviderError>> + Sync + Send + '_>>
+    where
+        Octs: octseq::Octets + Send + Sync,
+    {
+        let diffs = match diff_from {
+            Some(s) => self.diffs.iter().position(|d| d.start_serial == s).map(|p| self.diffs[p..].to_vec()).unwrap_or_default(),
+            None => vec![],
+        };
+        Box::pin(std::future::ready(Ok(XfrData::new(self.zone.clone(), diffs, self.compat))))
+    }
+}
+
+#[derive(Clone)]
+struct NoSvc;
+
+impl Service<Vec<u8>, ()> for NoSvc {
+    type Target = Vec<u8>;
+    type Stream = futures_util::stream::Once<std::future::Ready<ServiceResult<Vec<u8>>>>;
+    type Future = std::future::Ready<Self::Stream>;
+    fn call(&self, _r: Request<Vec<u8>, ()>) -> Self::Future {
+        std::future::ready(futures_util::stream::once(std::future::ready(Err(ServiceError::Refused))))
+    }
+}
+
+/// One write-interface edit per changed RRset, then the new SOA, then commit.
+async fn edit_to(zone: &Zone, from: &BTreeSet<MRec>, to: &BTreeSet<MRec>, serial: u32) -> Result<Option<InMemoryZoneDiff>, String> {
+    let mut w = zone.write().await;
+    let root = w.open(true).await.map_err(|e| format!("open:{e}"))?;
+    let (rf, rt) = (rrsets_of(from), rrsets_of(to));
+    let keys: BTreeSet<(u8, u16)> = rf.keys().chain(rt.keys()).cloned().collect();
+    for k in keys {
+        if rf.get(&k) == rt.get(&k) {
+            continue;
+        }
+        let node = node_for(&root, k.0).await.map_err(|e| format!("update_child:{e}"))?;
+        match rt.get(&k) {
+            Some(set) => {
+                let rds: Vec<RD> = set.iter().cloned().collect();
+                node.update_rrset(shared_rrset(&rds)).await.map_err(|e| format!("update_rrset:{e}"))?
+            }
+            None => node.remove_rrset(Rtype::from_int(k.1)).await.map_err(|e| format!("remove_rrset:{e}"))?,
+        }
+    }
+    root.update_rrset(shared_rrset(&[RD::Soa(serial)])).await.map_err(|e| format!("update_rrset(soa):{e}"))?;
+    drop(root);
+    w.commit(false).await.map_err(|e| format!("commit:{e}"))
+}
+
+#[derive(Clone, Debug)]
+struct SReq {
+    qtype: u16,
+    serial: Option<u32>,
+    udp: bool,
+    limit: u16,
+    compat: bool,
+}
+
+struct SOut {
+    msgs: Vec<Bytes>,
+    feedback: Vec<String>,
+    errors: Vec<String>,
+}
+
+async fn run_sender(versions: &[(u32, BTreeSet<MRec>)], rq: &SReq) -> Result<SOut, String> {
+    let zone = build_zone(versions[0].0, &versions[0].1);
+    let mut diffs = vec![];
+    for w in versions.windows(2) {
+        match edit_to(&zone, &w[0].1, &w[1].1, w[1].0).await? {
+            Some(d) => diffs.push(Arc::new(d)),
+            None => return Err("no-diff-from-commit".into()),
+        }
+    }
+    let svc = XfrMiddlewareSvc::<Vec<u8>, NoSvc, (), Provider>::new(NoSvc, Provider { zone, diffs, compat: rq.compat }, 1);
+    let mut q = MessageBuilder::new_vec().question();
+    q.header_mut().set_id(0x4242);
+    q.push((name(0), Rtype::from_int(rq.qtype))).unwrap();
+    let msg = if let Some(s) = rq.serial {
+        let mut a = q.authority();
+        a.push((name(0), Class::IN, Ttl::from_secs(TTL), data(RD::Soa(s)))).unwrap();
+        a.into_message()
+    } else {
+        q.into_message()
+    };
+    let tctx: TransportSpecificContext = if rq.udp { UdpTransportContext::new(None).into() } else { NonUdpTransportContext::new(None).into() };
+    let mut request = Request::new("192.0.2.1:5300".parse().unwrap(), tokio::time::Instant::now(), msg, tctx, ());
+    let full: u16 = if rq.udp { 512 } else { u16::MAX };
+    request.reserve_bytes(full - rq.limit.min(full));
+    let mut out = SOut { msgs: vec![], feedback: vec![], errors: vec![] };
+    let fut = async {
+        let mut stream = svc.call(request).await;
+        while let Some(item) = stream.next().await {
+            match item {
+                Ok(cr) => {
+                    let (resp, fb) = cr.into_inner();
+                    if let Some(r) = resp {
+                        out.msgs.push(Bytes::copy_from_slice(r.finish().as_dgram_slice()));
+                    }
+                    if let Some(fb) = fb {
+                        out.feedback.push(err_class(format!("{fb:?}")));
+                    }
+                }
+                Err(e) => out.errors.push(format!("{e}")),
+            }
+        }
+    };
+    if tokio::time::timeout(std::time::Duration::from_secs(10), fut).await.is_err() {
+        return Err("response-stream-never-ends".into());
+    }
+    Ok(out)
+}
+
+fn sreq_json(r: &SReq) -> Value {
+    json!({"qtype": r.qtype, "serial": r.serial, "udp": r.udp, "limit": r.limit, "compat": r.compat})
+}
+
+fn run_sender_case(sh: &Shared, ks: &[Kinds], rq: &SReq, verbose: bool) {
+    let versions: Vec<(u32, BTreeSet<MRec>)> = ks.iter().enumerate().map(|(i, k)| (i as u32 + 1, zone_recs(*k))).collect();
+    let all_obs: Vec<Obs> = versions.iter().map(|(s, r)| model_obs(*s, r)).collect();
+    let current = all_obs.last().unwrap().clone();
+    let cur_serial = versions.last().unwrap().0;
+    let r = guard(|| RT.with(|rt| rt.block_on(run_sender(&versions, rq))));
+    sh.stats.eval();
+    LOCAL.with(|l| {
+        let mut l = l.borrow_mut();
+        l.runs += 1;
+        l.transitions += versions.len() as u64;
+    });
+    let mut key = vec![0x5];
+    for k in ks {
+        key.extend_from_slice(k);
+    }
+    key.extend_from_slice(format!("{rq:?}").as_bytes());
+    sh.stats.distinct(fnv(&key));
+    let cj = || json!({"part": "S", "zones": ks, "request": sreq_json(rq)});
+    let rname = format!(
+        "{}/{}{}",
+        if rq.qtype == 252 { "axfr" } else { "ixfr" },
+        if rq.udp { "udp" } else { "tcp" },
+        if rq.compat { "/compat" } else { "" }
+    );
+    let out = match r {
+        Err(p) => {
+            report(sh, &format!("C10|panic|sender|{}", panic_class(&p)), &|| format!("XfrMiddlewareSvc panicked: {p}; request {rq:?}"), &cj);
+            return;
+        }
+        Ok(Err(e)) => {
+            lcount(&format!("S:error:{e}"));
+            report(sh, &format!("C10|sender|{rname}|{}", err_class(e.clone())), &|| format!("sender run failed: {e}; request {rq:?}"), &cj);
+            return;
+        }
+        Ok(Ok(o)) => o,
+    };
+    if verbose {
+        println!("sender case: zones={ks:?} request={rq:?}");
+        println!("  feedback {:?} errors {:?} messages {}", out.feedback, out.errors, out.msgs.len());
+    }
+    LOCAL.with(|l| l.borrow_mut().transitions += out.msgs.len() as u64);
+    // what the requester holds
+    let client_idx = match rq.serial {
+        Some(s) if s >= 1 && (s as usize) <= versions.len() => s as usize - 1,
+        _ => 0,
+    };
+    let client = &versions[client_idx];
+    let client_obs = &all_obs[client_idx];
+    let refo = reference(&out.msgs, client_obs);
+    lcount(&format!("S:{rname}:serial={:?}:messages={}:ref={:?}({})/{}", rq.serial.map(|s| if s == cur_serial { "current" } else if s == 0 { "unknown" } else { "older" }), out.msgs.len().min(3), refo.verdict, refo.reason, refo.xfr));
+    if !out.errors.is_empty() {
+        report(sh, &format!("C10|sender|{rname}|service-error"), &|| format!("response stream carries errors {:?}", out.errors), &cj);
+        return;
+    }
+    // AXFR over UDP: refused (RFC 5936 4.2); IXFR with the current serial: single SOA
+    if rq.qtype == 252 && rq.udp {
+        let ok = out.msgs.len() == 1 && wire::read_message(&out.msgs[0]).map(|m| m.flags & 0xf != 0 && m.counts[1] == 0).unwrap_or(false);
+        if !ok {
+            report(sh, "C10|sender|axfr/udp|not-refused", &|| "an AXFR request over UDP is not answered by a single error response".into(), &cj);
+        }
+        return;
+    }
+    if rq.serial == Some(cur_serial) && refo.verdict == V::UpToDate {
+        // RFC 1995 2: single SOA of the current version.  (A full AXFR-style
+        // answer is wasteful but still a valid transfer and is judged below.)
+        lcount("S:current-serial-single-soa");
+        return;
+    }
+    if rq.udp && refo.verdict == V::UpToDate {
+        // does not fit: single SOA, retry over TCP (RFC 1995 2)
+        lcount("S:udp-single-soa-retry-signal");
+        return;
+    }
+    if rq.udp && out.msgs.len() != 1 {
+        report(sh, &format!("C10|sender|{rname}|more-than-one-datagram"), &|| format!("{} UDP responses", out.msgs.len()), &cj);
+    }
+    if refo.verdict == V::Open {
+        return;
+    }
+    // the emitted stream must be a valid transfer of the sender's zone, and the
+    // real receiver holding the requester's version must end up with it
+    let c = Case {
+        part: "S",
+        label: format!("sender:{rname}/limit={}/zones={:?}", rq.limit, ks),
+        old_kinds: ks[client_idx],
+        old_serial: client.0,
+        old: &client.1,
+        honest_new: Some(current),
+        honest_versions: all_obs.clone(),
+        fault: None,
+        msgs: out.msgs.clone(),
+    };
+    judge(sh, &c, verbose);
+}
+
+fn sender_requests() -> Vec<SReq> {
+    let mut v = vec![];
+    for limit in [u16::MAX, 130, 90] {
+        for compat in [false, true] {
+            v.push(SReq { qtype: 252, serial: None, udp: false, limit, compat });
+        }
+        for serial in [0u32, 1, 2, 3] {
+            v.push(SReq { qtype: 251, serial: Some(serial), udp: false, limit, compat: false });
+        }
+    }
+    v.push(SReq { qtype: 252, serial: None, udp: true, limit: 512, compat: false });
+    for limit in [512u16, 150] {
+        for serial in [0u32, 1, 2, 3] {
+            v.push(SReq { qtype: 251, serial: Some(serial), udp: true, limit, compat: false });
+        }
+    }
+    v
+}
+
+fn run_sender_part(sh: &Shared, b: &Bounds) {
+    let mut chains: Vec<Vec<Kinds>> = vec![];
+    for oi in 0..64 {
+        for ni in 0..64 {
+            let (o, n) = (kinds_of(oi), kinds_of(ni));
+            let d = dist(o, n);
+            if d == 0 || d > b.sender_dist {
+                continue;
+            }
+            chains.push(vec![o, n]);
+            for mi in 0..64 {
+                let m = kinds_of(mi);
+                if m != o && m != n && dist(o, m) <= 1 && dist(m, n) <= 1 {
+                    chains.push(vec![o, m, n]);
+                }
+            }
+        }
+    }
+    lcount(&format!("S:version-chains={}", chains.len()));
+    let reqs = sender_requests();
+    chains.par_iter().for_each(|ks| {
+        for rq in &reqs {
+            if rq.serial.map(|s| s as usize > ks.len()).unwrap_or(false) {
+                continue;
+            }
+            run_sender_case(sh, ks, rq, false);
+        }
+    });
+}
+
+fn replay_sender(sh: &Shared, case: &Value) {
+    let ks: Vec<Kinds> = case["zones"]
+        .as_array()
+        .unwrap()
+        .iter()
+        .map(|z| {
+            let a: Vec<u8> = z.as_array().unwrap().iter().map(|x| x.as_u64().unwrap() as u8).collect();
+            [a[0], a[1], a[2]]
+        })
+        .collect();
+    let r = &case["request"];
+    let rq = SReq {
+        qtype: r["qtype"].as_u64().unwrap() as u16,
+        serial: r["serial"].as_u64().map(|s| s as u32),
+        udp: r["udp"].as_bool().unwrap(),
+        limit: r["limit"].as_u64().unwrap() as u16,
+        compat: r["compat"].as_bool().unwrap(),
+    };
+    run_sender_case(sh, &ks, &rq, true);
+}
+
 
 // ====================================================================
 // main
@@ -1535,6 +2008,7 @@ fn replay(sh: &Shared, case: &Value) {
                 .collect();
             run_diff_case(sh, kinds(&case["old"]), &ops, case["mode"].as_u64().unwrap() as u8, true);
         }
+        "S" => replay_sender(sh, case),
         _ => {
             let old_k = kinds(&case["old"]);
             let old = zone_recs(old_k);
@@ -1557,12 +2031,13 @@ fn replay(sh: &Shared, case: &Value) {
 
 fn main() {
     let ctx = Ctx::new("C10", "model_checking");
-    let sh = Shared { ctx: ctx.clone(), stats: Stats::new(), states: Default::default(), transitions: AtomicU64::new(0), runs: AtomicU64::new(0) };
+    let sh = Shared { ctx: ctx.clone(), stats: Stats::new(), seen: Default::default(), sample_keys: Default::default(), samples: Default::default() };
     let b = if ctx.quick() {
-        Bounds { max_dist: 2, all_splits_upto: 8, both_qmodes: false, mid_first: 1, mid_second: 1, fault_dist: 1, fault_cuts: 2, diff_len: 2 }
+        Bounds { max_dist: 2, all_splits_upto: 8, both_qmodes: false, mid_first: 1, mid_second: 1, fault_dist: 1, fault_cuts: 2, diff_len: 2, sender_dist: 1 }
     } else {
-        Bounds { max_dist: 3, all_splits_upto: 10, both_qmodes: true, mid_first: 1, mid_second: 2, fault_dist: 2, fault_cuts: 3, diff_len: 3 }
+        Bounds { max_dist: 3, all_splits_upto: 10, both_qmodes: true, mid_first: 1, mid_second: 2, fault_dist: 2, fault_cuts: 3, diff_len: 3, sender_dist: 2 }
     };
+    let mut npairs = 0;
     if let Some(p) = &ctx.replay {
         let text = std::fs::read_to_string(p).expect("replay file");
         let v: Value = serde_json::from_str(&text).expect("replay json");
@@ -1576,33 +2051,51 @@ fn main() {
                 }
             }
         }
-        sh.stats.count_n("pairs", pairs.len() as u64);
+        npairs = pairs.len();
+        let t0 = std::time::Instant::now();
         pairs.par_iter().for_each(|(o, n)| run_pair(&sh, *o, *n, &b));
+        eprintln!("parts R+F done at {:.1}s ({} evaluations)", t0.elapsed().as_secs_f64(), sh.stats.evals());
         run_diff_part(&sh, &b);
+        eprintln!("part D done at {:.1}s ({} evaluations)", t0.elapsed().as_secs_f64(), sh.stats.evals());
+        run_sender_part(&sh, &b);
+        eprintln!("part S done at {:.1}s ({} evaluations)", t0.elapsed().as_secs_f64(), sh.stats.evals());
     }
-    let states = sh.states.lock().unwrap().len();
+    // merge the per-thread statistics
+    let mut locals: Vec<Local> = rayon::broadcast(|_| LOCAL.with(|l| std::mem::take(&mut *l.borrow_mut())));
+    locals.push(LOCAL.with(|l| std::mem::take(&mut *l.borrow_mut())));
+    let mut total = Local::default();
+    for l in locals {
+        for (k, v) in l.counters {
+            *total.counters.entry(k).or_insert(0) += v;
+        }
+        total.states.extend(l.states);
+        total.transitions += l.transitions;
+        total.runs += l.runs;
+    }
+    let mut samples = sh.samples.lock().unwrap().clone();
+    samples.sort_by_key(|v| v.to_string());
     ctx.finish(
         json!({
-            "states": states,
-            "transitions": sh.transitions.load(AO::Relaxed),
-            "traces_validated_against_impl": sh.runs.load(AO::Relaxed),
+            "states": total.states.len(),
+            "transitions": total.transitions,
+            "traces_validated_against_impl": total.runs,
             "evaluations": sh.stats.evals(),
             "distinct_nontrivial": sh.stats.distinct_count(),
-            "rule": "distinct (old zone, exact response octets) receiver cases with >=2 messages, a fault, or a changed zone; plus distinct (old zone, non-empty edit sequence, commit mode) diff cases",
+            "rule": "distinct (old zone, exact response octets) receiver cases with >=2 messages, a fault, or a changed zone; plus distinct (old zone, non-empty edit sequence, commit mode) diff cases; plus distinct (old,mid,new,request) sender cases",
             "exhaustive": true,
             "bounds": {
-                "zones": 64, "pair_distance": b.max_dist, "all_splits_up_to_rrs": b.all_splits_upto, "beyond": "all splits with <=2 cuts + one RR per message",
+                "zones": 64, "ordered_pairs": npairs, "pair_distance": b.max_dist, "all_splits_up_to_rrs": b.all_splits_upto, "beyond": "all splits with <=2 cuts + one RR per message",
                 "two_step_mid": format!("dist(old,mid)<={} and dist(mid,new)<={}", b.mid_first, b.mid_second),
                 "fault_pair_distance": b.fault_dist, "fault_split_cuts": b.fault_cuts, "diff_edit_len": b.diff_len,
             },
-            "histogram": sh.stats.counters_json(),
-            "samples": sh.stats.samples(),
+            "histogram": total.counters,
+            "samples": samples,
         }),
         &[
             "states = distinct receiver-zone contents observed on the real zone; transitions = response messages fed to the real interpreter/updater plus edit operations executed on the real write interface",
             "an end of the response stream without ZoneUpdate::Finished counts as rejection (the library has no end-of-stream call); the updater is then dropped and the zone inspected",
-            "an AXFR-style IXFR answer for a zone with no record besides its SOA (SOA SOA) is excluded: RFC 1995 gives a client no way to tell it from an empty difference list",
-            "cases the RFCs leave open (data after the closing SOA, IXFR deleting an absent RR or adding a present RR, base-serial mismatch, empty middle message, question of a later message) accept either verdict",
+            "an AXFR-style IXFR answer for a zone with no record besides its SOA (SOA SOA) is not judged: RFC 1995 gives a client no way to tell it from a difference list",
+            "cases the RFCs leave open (data after the closing SOA, IXFR deleting an absent RR or adding a present RR, base-serial or chain-serial mismatch with a consistent end state, empty middle message, question of a later message) accept either verdict",
         ],
     );
 }
